@@ -599,7 +599,11 @@ pub fn execute(set: &dyn DynSet, xi: &[u8; 32], xi_other: &[u8; 32], ops: &[Op],
                 let s = &sks[sk % sks.len()];
                 let cl = (1usize << 32) + *extra as usize;
                 // zero pages straight from the allocator: costs no memory and no time unless the library reads them
-                let ctx = vec![0u8; cl];
+                // (where the platform refuses 4 GiB of address space the operation is skipped and counted)
+                let Some(ctx) = zero_pages(cl) else {
+                    bump(&mut st.faults_fired, "channel/context_of_4gib/unavailable");
+                    continue;
+                };
                 bump(&mut st.faults_fired, "channel/context_of_4gib");
                 // a library that lets this through hashes 4 GiB per call: report the first acceptance and move on
                 if let Some(Ok(_)) = guard!(i, "sign", s.obj.sign_rng(&mut SimRng::healthy(rnd.to_vec()), msg, &ctx, *mode)) {
@@ -802,6 +806,19 @@ fn gen_fault(p: &mut Prng, len: usize, region_bias: Option<(usize, usize)>) -> F
 // incl. lengths at which a slice boundary of the absorbed stream tr|dom|len|ctx|... meets a SHAKE256 block boundary
 const MSG_LENS: [usize; 12] = [0, 1, 8, 65, 70, 135, 136, 137, 168, 206, 1000, 3000];
 const CTX_LENS: [usize; 10] = [0, 1, 27, 32, 59, 70, 131, 200, 254, 255];
+
+/// `n` zero bytes as untouched pages from the allocator, or None where that much address space is refused
+/// (`vec![0; n]` would abort the process instead).
+fn zero_pages(n: usize) -> Option<Vec<u8>> {
+    let layout = std::alloc::Layout::array::<u8>(n).ok()?;
+    // SAFETY: non-zero size; the pointer comes from the global allocator with exactly this layout
+    // (size n, alignment 1), which is what Vec<u8> with capacity n hands back on drop; all n bytes are
+    // initialised (zero)
+    unsafe {
+        let p = std::alloc::alloc_zeroed(layout);
+        if p.is_null() { None } else { Some(Vec::from_raw_parts(p, n, n)) }
+    }
+}
 
 /// Generate one seeded history.
 pub fn gen_history(p: &mut Prng, set: &dyn DynSet) -> Vec<Op> {
